@@ -223,3 +223,261 @@ Proof.
     + apply add_msg_ok; simpl; auto. intros x [].
     + simpl. apply in_or_app. right; left; reflexivity.
 Qed.
+
+Definition pws_ok (pws : list pwriter) : Prop := forall pw, In pw pws -> pw_ok pw.
+
+Lemma pws_add_ok : forall pws m i pws' ref sp,
+  pws_ok pws -> (m_size m <= batchBytes cfg)%N ->
+  pws_add cfg (tp_of cfg m) m i pws = Some (pws', ref, sp) -> pws_ok pws'.
+Proof.
+  induction pws as [|p r IH]; intros m i pws' ref sp Hok Hsz H; cbn [pws_add] in H.
+  - discriminate.
+  - destruct (pw_open p && tp_eqb (pw_tp p) (tp_of cfg m)) eqn:E.
+    + apply andb_true_iff in E. destruct E as [E1 E2]. apply tp_eqb_eq in E2.
+      destruct (pw_add cfg p m) as [[p' k] sp'] eqn:A. inversion H; subst; clear H.
+      intros pw [<-|Hi].
+      * eapply pw_add_ok; eauto. apply Hok; left; reflexivity.
+      * apply Hok; right; exact Hi.
+    + destruct (pws_add cfg (tp_of cfg m) m (S i) r) as [[[r' ref'] sp']|] eqn:A; [|discriminate].
+      inversion H; subst; clear H.
+      intros pw [<-|Hi].
+      * apply Hok; left; reflexivity.
+      * eapply IH; eauto. intros x Hx. apply Hok; right; exact Hx.
+Qed.
+
+Lemma new_pw_ok : forall tp, pw_ok (new_pw tp).
+Proof.
+  intros tp. unfold pw_ok, new_pw; simpl.
+  split; [discriminate|]. split; [intros b []|]. split; discriminate.
+Qed.
+
+Lemma assign_one_ok : forall pws wg refs m pws' wg' refs',
+  pws_ok pws -> (m_size m <= batchBytes cfg)%N ->
+  assign_one cfg (pws, wg, refs) m = (pws', wg', refs') -> pws_ok pws'.
+Proof.
+  intros pws wg refs m pws' wg' refs' Hok Hsz H. unfold assign_one in H.
+  destruct (pws_add cfg (tp_of cfg m) m 0 pws) as [[[r' ref'] sp']|] eqn:A.
+  - inversion H; subst; clear H. eapply pws_add_ok; eauto.
+  - destruct (pw_add cfg (new_pw (tp_of cfg m)) m) as [[p' k] sp'] eqn:B.
+    inversion H; subst; clear H.
+    intros pw Hi. apply in_app_or in Hi. destruct Hi as [Hi|[<-|[]]]; [apply Hok; exact Hi|].
+    eapply pw_add_ok; [apply new_pw_ok| | | |exact B]; auto.
+Qed.
+
+Lemma fold_assign_ok : forall ms st,
+  pws_ok (fst (fst st)) -> (forall m, In m ms -> (m_size m <= batchBytes cfg)%N) ->
+  pws_ok (fst (fst (fold_left (assign_one cfg) ms st))).
+Proof.
+  induction ms as [|m r IH]; intros st Hok Hsz; cbn [fold_left].
+  - exact Hok.
+  - apply IH; [|intros x Hx; apply Hsz; right; exact Hx].
+    destruct st as [[pws wg] refs].
+    destruct (assign_one cfg (pws, wg, refs) m) as [[pws' wg'] refs'] eqn:A.
+    simpl. eapply assign_one_ok; eauto. apply Hsz; left; reflexivity.
+Qed.
+
+Lemma assign_all_ok : forall pws wg ms pws' wg' refs',
+  pws_ok pws -> (forall m, In m ms -> (m_size m <= batchBytes cfg)%N) ->
+  assign_all cfg pws wg ms = (pws', wg', refs') -> pws_ok pws'.
+Proof.
+  intros pws wg ms pws' wg' refs' Hok Hsz H.
+  pose proof (fold_assign_ok ms (pws, wg, []) Hok Hsz) as P.
+  unfold assign_all in H. rewrite H in P. exact P.
+Qed.
+
+Lemma close_pw_ok : forall pw, pw_ok pw -> pw_ok (close_pw pw).
+Proof.
+  intros pw Hok. unfold close_pw. destruct (pw_open pw) eqn:Hop; [|exact Hok].
+  destruct pw as [tp op nb fin snd q cur al aw]. simpl in Hop. subst op.
+  destruct Hok as [Hc [Hq [Hs Ha]]]; simpl in Hc, Hq, Hs, Ha.
+  assert (Hal : al = true) by (destruct al; [reflexivity|destruct (Ha eq_refl); discriminate]).
+  subst al.
+  destruct cur as [b|]; unfold pw_ok, curr_ok; simpl.
+  - split; [discriminate|]. split; [|split; [exact Hs|discriminate]].
+    intros x Hi. apply in_app_or in Hi. destruct Hi as [Hi|[<-|[]]]; auto.
+    apply (Hc b eq_refl).
+  - split; [discriminate|]. split; [exact Hq|]. split; [exact Hs|discriminate].
+Qed.
+
+Lemma timer_ok : forall pw k, pw_ok pw ->
+  pw_ok (let pw1 := match pw_curr pw with
+                    | Some b => if Nat.eqb (b_k b) k then set_curr (put pw b) None else pw
+                    | None => pw
+                    end in
+         set_await pw1 (filter (fun x => negb (Nat.eqb x k)) (pw_await pw1))).
+Proof.
+  intros pw k Hok.
+  destruct pw as [tp op nb fin snd q cur al aw].
+  destruct Hok as [Hc [Hq [Hs Ha]]]; simpl in Hc, Hq, Hs, Ha.
+  destruct cur as [b|]; simpl.
+  - destruct (Hc b eq_refl) as [Hb [Hn [Hby [Hop Hin]]]]; simpl in Hb, Hop, Hin. subst op.
+    destruct (Nat.eqb (b_k b) k) eqn:E; unfold pw_ok, curr_ok; simpl.
+    + split; [discriminate|]. split; [|split; [exact Hs|]].
+      * intros x Hi. apply in_app_or in Hi. destruct Hi as [Hi|[<-|[]]]; auto.
+      * intros F. destruct (Ha F); discriminate.
+    + split; [|split; [exact Hq|split; [exact Hs|exact Ha]]].
+      intros x Hx. inversion Hx; subst x; clear Hx.
+      repeat split; auto; try apply Hb.
+      apply filter_In. split; [exact Hin|]. rewrite E. reflexivity.
+  - unfold pw_ok; simpl. split; [discriminate|]. split; [exact Hq|]. split; [exact Hs|exact Ha].
+Qed.
+
+(* ---- the state invariant ---- *)
+Definition att_ok (a : attempt) : Prop :=
+  length (a_msgs a) <= Nat.max 1 (batchSize cfg) /\
+  (sum_sizes (a_msgs a) <= batchBytes cfg)%N /\
+  a_msgs a <> [] /\
+  (forall m, In m (a_msgs a) -> tp_of cfg m = a_tp a).
+
+Definition calls_ok (cs : list call) : Prop :=
+  forall cl, In cl cs -> c_ph cl = CEntered ->
+  forall m, In m (c_msgs cl) -> (m_size m <= batchBytes cfg)%N.
+
+Definition inv (s : state) : Prop :=
+  pws_ok (s_pws s) /\ calls_ok (s_calls s) /\ (forall a, In a (s_journal s) -> att_ok a).
+
+Lemma inv_init : inv init.
+Proof. unfold inv, pws_ok, calls_ok; simpl. split; [|split]; intros ? []. Qed.
+
+Lemma pws_ok_upd : forall pws p pw, pws_ok pws -> pw_ok pw -> pws_ok (upd pws p pw).
+Proof.
+  intros pws p pw Hok Hpw x Hi. apply upd_In in Hi. destruct Hi as [->|Hi]; auto.
+Qed.
+
+Lemma calls_ok_snoc : forall cs c,
+  calls_ok cs ->
+  (c_ph c = CEntered -> forall m, In m (c_msgs c) -> (m_size m <= batchBytes cfg)%N) ->
+  calls_ok (cs ++ [c]).
+Proof.
+  intros cs c Hok Hc cl Hi. apply in_app_or in Hi.
+  destruct Hi as [Hi|[<-|[]]]; [apply Hok; exact Hi|exact Hc].
+Qed.
+
+Lemma calls_ok_upd : forall cs i c,
+  calls_ok cs -> c_ph c <> CEntered -> calls_ok (upd cs i c).
+Proof.
+  intros cs i c Hok Hc cl Hi. apply upd_In in Hi.
+  destruct Hi as [->|Hi]; [congruence|apply Hok; exact Hi].
+Qed.
+
+Lemma inv_step : forall s l s', inv s -> step cfg s l = Some s' -> inv s'.
+Proof.
+  intros s l s' [Hp [Hc Hj]] H.
+  destruct l; cbn [step] in H.
+  - (* Call *)
+    destruct (call_admissible s g msgs); [|discriminate].
+    destruct (closed s).
+    { inversion H; subst; clear H. split; [exact Hp|split; [|exact Hj]]; simpl.
+      apply calls_ok_snoc; auto. simpl; discriminate. }
+    destruct msgs as [|m0 r].
+    { inversion H; subst; clear H. split; [exact Hp|split; [|exact Hj]]; simpl.
+      apply calls_ok_snoc; auto. simpl; discriminate. }
+    destruct (validate cfg merr (m0 :: r)) eqn:V.
+    { inversion H; subst; clear H. split; [exact Hp|split; [|exact Hj]]; simpl.
+      apply calls_ok_snoc; auto. simpl; discriminate. }
+    inversion H; subst; clear H. split; [exact Hp|split; [|exact Hj]]; simpl.
+    apply calls_ok_snoc; auto. cbn [c_msgs]. intros _ m Hi.
+    apply (validate_none cfg _ _ V m Hi).
+  - (* Assign *)
+    destruct (nth_error (s_calls s) c) as [cl|] eqn:N; [|discriminate].
+    destruct (c_ph cl) eqn:Ph; try discriminate.
+    destruct (assign_all cfg (s_pws s) (s_wg s) (c_msgs cl)) as [[pws wg] refs] eqn:A.
+    inversion H; subst; clear H. split; [|split; [|exact Hj]]; simpl.
+    + eapply assign_all_ok; eauto. apply Hc; [eapply nth_error_In; eauto|exact Ph].
+    + apply calls_ok_upd; auto. simpl; discriminate.
+  - (* Timer *)
+    destruct (nth_error (s_pws s) p) as [pw|] eqn:N; [|discriminate].
+    destruct (existsb (Nat.eqb k) (pw_await pw)); [|discriminate].
+    inversion H; subst; clear H. split; [|split; [exact Hc|exact Hj]]; simpl.
+    apply pws_ok_upd; auto. apply (timer_ok pw k). apply Hp. eapply nth_error_In; eauto.
+  - (* Get *)
+    destruct (nth_error (s_pws s) p) as [pw|] eqn:N; [|discriminate].
+    assert (Hpw : pw_ok pw) by (apply Hp; eapply nth_error_In; eauto).
+    destruct (pw_alive pw) eqn:Al; [|discriminate].
+    destruct (pw_snd pw) eqn:Sn; [discriminate|].
+    destruct (pw_queue pw) as [|b q] eqn:Q; [discriminate|].
+    inversion H; subst; clear H. split; [|split; [exact Hc|exact Hj]]; simpl.
+    apply pws_ok_upd; auto.
+    destruct Hpw as [H1 [H2 [H3 H4]]]. unfold pw_ok, curr_ok; simpl.
+    split; [exact H1|]. split; [intros x Hx; apply H2; rewrite Q; right; exact Hx|].
+    split; [|intros F; congruence].
+    intros sd E; inversion E; subst sd; simpl. apply H2. rewrite Q; left; reflexivity.
+  - (* SenderExit *)
+    destruct (nth_error (s_pws s) p) as [pw|] eqn:N; [|discriminate].
+    assert (Hpw : pw_ok pw) by (apply Hp; eapply nth_error_In; eauto).
+    destruct (pw_alive pw) eqn:Al; [|discriminate].
+    destruct (pw_snd pw) eqn:Sn; [discriminate|].
+    destruct (pw_queue pw) as [|b q] eqn:Q; [|discriminate].
+    destruct (pw_open pw) eqn:Op; [discriminate|].
+    inversion H; subst; clear H. split; [|split; [exact Hc|exact Hj]]; simpl.
+    apply pws_ok_upd; auto.
+    destruct Hpw as [H1 [H2 [H3 H4]]]. unfold pw_ok, curr_ok; simpl.
+    split; [intros x E; destruct (H1 x E) as [_ [_ [_ [O _]]]]; congruence|].
+    split; [exact H2|]. split; [exact H3|]. intros _. rewrite Q. auto.
+  - (* Attempt *)
+    destruct (nth_error (s_pws s) p) as [pw|] eqn:N; [|discriminate].
+    assert (Hpw : pw_ok pw) by (apply Hp; eapply nth_error_In; eauto).
+    destruct (pw_snd pw) as [[b n ph]|] eqn:Sn; [|discriminate].
+    destruct ph; try discriminate.
+    inversion H; subst; clear H.
+    destruct Hpw as [H1 [H2 [H3 H4]]]. specialize (H3 _ eq_refl). simpl in H3.
+    split; [|split; [exact Hc|]]; simpl.
+    + apply pws_ok_upd; auto. unfold pw_ok, curr_ok; simpl.
+      split; [exact H1|]. split; [exact H2|]. split; [|exact H4].
+      intros sd E; inversion E; subst sd; simpl. exact H3.
+    + intros a Hi. apply in_app_or in Hi. destruct Hi as [Hi|[<-|[]]]; auto.
+      destruct H3 as [B1 [B2 [B3 [B4 B5]]]]. unfold att_ok; simpl.
+      split; [exact B3|]. split; [rewrite <- B1; exact B4|]. split; [exact B2|exact B5].
+  - (* BackoffDone *)
+    destruct (nth_error (s_pws s) p) as [pw|] eqn:N; [|discriminate].
+    assert (Hpw : pw_ok pw) by (apply Hp; eapply nth_error_In; eauto).
+    destruct (pw_snd pw) as [[b n ph]|] eqn:Sn; [|discriminate].
+    destruct ph; try discriminate.
+    inversion H; subst; clear H.
+    destruct Hpw as [H1 [H2 [H3 H4]]]. specialize (H3 _ eq_refl). simpl in H3.
+    split; [|split; [exact Hc|exact Hj]]; simpl.
+    apply pws_ok_upd; auto. unfold pw_ok, curr_ok; simpl.
+    split; [exact H1|]. split; [exact H2|]. split; [|exact H4].
+    intros sd E; inversion E; subst sd; simpl. exact H3.
+  - (* Finish *)
+    destruct (nth_error (s_pws s) p) as [pw|] eqn:N; [|discriminate].
+    assert (Hpw : pw_ok pw) by (apply Hp; eapply nth_error_In; eauto).
+    destruct (pw_snd pw) as [[b n ph]|] eqn:Sn; [|discriminate].
+    destruct ph; try discriminate.
+    inversion H; subst; clear H.
+    destruct Hpw as [H1 [H2 [H3 H4]]].
+    split; [|split; [exact Hc|exact Hj]]; simpl.
+    apply pws_ok_upd; auto. unfold pw_ok, curr_ok; simpl.
+    split; [exact H1|]. split; [exact H2|]. split; [discriminate|exact H4].
+  - (* Return *)
+    destruct (nth_error (s_calls s) c) as [cl|] eqn:N; [|discriminate].
+    destruct (c_ph cl) eqn:Ph; try discriminate.
+    destruct (async cfg).
+    + inversion H; subst; clear H. split; [exact Hp|split; [|exact Hj]]; simpl.
+      apply calls_ok_upd; auto. simpl; discriminate.
+    + destruct (all_results (s_pws s) (c_refs cl)); [|discriminate].
+      inversion H; subst; clear H. split; [exact Hp|split; [|exact Hj]]; simpl.
+      apply calls_ok_upd; auto. simpl; discriminate.
+  - (* CtxDone *)
+    destruct (nth_error (s_calls s) c) as [cl|] eqn:N; [|discriminate].
+    destruct (c_ph cl) eqn:Ph; try discriminate.
+    destruct (async cfg); [discriminate|].
+    inversion H; subst; clear H. split; [exact Hp|split; [|exact Hj]]; simpl.
+    apply calls_ok_upd; auto. simpl; discriminate.
+  - (* CloseMark *)
+    destruct (s_close s); try discriminate.
+    inversion H; subst; clear H. split; [|split; [exact Hc|exact Hj]]; simpl.
+    intros pw Hi. apply in_map_iff in Hi. destruct Hi as [x [<- Hx]].
+    apply close_pw_ok. apply Hp; exact Hx.
+  - (* CloseWaitDone *)
+    destruct (s_close s); try discriminate.
+    destruct (s_wg s); try discriminate.
+    inversion H; subst; clear H. split; [exact Hp|split; [exact Hc|exact Hj]].
+Qed.
+
+End Inv.
+
+Lemma runs_inv_C08 : forall cfg ls s, runs cfg ls s -> inv cfg s.
+Proof.
+  intros cfg ls s H. eapply runs_inv; [apply inv_init|apply inv_step|exact H].
+Qed.
